@@ -12,6 +12,7 @@ def run(ctx, focus):
     for pol in POLICIES:
         ctx.tlc("AsyncLogger", "MC_Async_%s%s" % (pol, "_t" if thorough else ""), timeout=3000)
         ctx.tlc("AsyncLogger", "MC_Async_live_%s" % pol, timeout=900)
+        ctx.tlc("AsyncRefinement", "MC_AsyncRef_%s" % pol, timeout=900)      # AsyncLogger refines AbstractFifo
     hist = []
     for pol in POLICIES:
         g = ctx.tlc("AsyncGen", "Gen_Async_%s_%s" % (pol, "t" if thorough else "q"), timeout=3000)
@@ -52,7 +53,8 @@ def run(ctx, focus):
         life = ctx.tlc("LogSystem", "MC_LogSystem_life_q", timeout=1500)
         rep.absorb(ctx.vh_sharded("lifecycle", life.emitted, extra=["--mode", "async"], shards=8, timeout=1500))
     rep.exhaustive = True
-    rep.rule = ("AsyncLogger.tla model-checked for each policy (2 producers, capacity 2, safety + Stop liveness); "
+    rep.rule = ("AsyncLogger.tla model-checked for each policy (2 producers, capacity 2, safety + Stop liveness + refinement of "
+                "AbstractFifo.tla, a lossy FIFO); "
                 "AsyncGen.tla behaviours - every sequence of %d operations over {event, disabled event, raw write, "
                 "release worker, Stop} from occupancies 97..99 (and 0..2, 4 operations) of a 100-slot buffer, per policy, plus simulated "
                 "14-operation behaviours with 3 producers - replayed on a real AsyncLogger with a gated appender, "
